@@ -717,7 +717,8 @@ def store_case(ctx, case):
 
 def gen_store_case(rng, idx, backend):
     c = gen_cluster(rng)
-    m = "c12s%d_%s" % (idx, ".".join(gen_ident(rng, 3) for _ in range(rng.randint(1, 2))))
+    # the first characters of the module name vary (listings strip a directory prefix "m/" from keys)
+    m = "%s12s%d_%s" % (rng.choice(["c", "m", "mm", "m_m", "M", "n"]), idx, ".".join(gen_ident(rng, 3) for _ in range(rng.randint(1, 2))))
     f = gen_ident(rng, 5)
     v1 = gen_version(rng)
     r = rng.random()
@@ -737,7 +738,7 @@ def gen_store_case(rng, idx, backend):
 def stream_store(ctx, quick):
     chk, rng = ctx.chk, ctx.chk.rng
     n = 150 if quick else 1200
-    fixed = [dict(backend=b, cluster=c, module="c12sf%d.m" % i, function="f", versions=vs, arg=1)
+    fixed = [dict(backend=b, cluster=c, module=("c12sf%d.m" if i % 2 else "m12sf%d.m") % i, function="f", versions=vs, arg=1)
              for i, (b, c, vs) in enumerate([(b, c, vs) for b in ("fs", "mem") for c in (None, "k:c")
                                              for vs in (["v:1", "v:10"], ["x", "x.link"], ["a::b:c", "a#b"], ["1", ""])])]
     cases = fixed + [gen_store_case(rng, i, "fs" if i % 3 else "mem") for i in range(n)]
